@@ -44,8 +44,14 @@ def _classify(op, out):
 CFG = PropCfg(
     "C04", "HopModel.Props.C04",
     [SuiteCfg("C04", nontrivial=_nontrivial, signature=_sig, classify=_classify,
-              observable=lambda op: _word(op) != "why")],
-    rule="a case is a sequence of scenarios over one pool of real Ed25519 keys; a scenario builds a root, an "
+              observable=lambda op: _word(op) != "why"),
+     # the caller of Store.VerifyLeaf in every handshake (transport's certificateParserAndVerifier): a failed chain check
+     # is final whatever an additional callback says (C01's harness)
+     SuiteCfg("C01cb", binary="C01", stateless=True, parts_thorough=1, nontrivial=lambda ops, outs: True)],
+    rule="suite C01cb (C01's harness): real handshakes whose verifier carries an additional callback that accepts or refuses, "
+         "against self-signed / valid certificates under every policy: the verdict of Store.VerifyLeaf is not overridden by "
+         "an accepting callback. suite C04: PEM bundles (certs.ReadManyCertificatesPEM, as LoadRootStoreFromPEMFile uses it) "
+         "are an alternative way of adding the same certificates to the store. A case is a sequence of scenarios over one pool of real Ed25519 keys; a scenario builds a root, an "
          "intermediate and a leaf (serialized, signed by the harness or produced by certs.issue / IssueLeafAt, then "
          "parsed with Certificate.ReadFrom), fills the trust store (random subsets, distractors from earlier "
          "scenarios, overwrites) and calls the real Store.VerifyLeaf with a presented / stored / missing / wrong "
